@@ -239,7 +239,7 @@ var IndexCatalogue = map[string]IndexDef{
 	"n>1#2": {Name: "n>1#2", Col: "n", Pred: func(v Val) bool { return int64(v.N) > 1 }, Rule: func(r column.Reader) bool { return r.Int() > 1 }},
 	"n%2":   {Name: "n%2", Col: "n", Pred: func(v Val) bool { return int64(v.N)%2 == 0 }, Rule: func(r column.Reader) bool { return r.Int()%2 == 0 }},
 	"s=a":   {Name: "s=a", Col: "s", Pred: func(v Val) bool { return v.S == "a" }, Rule: func(r column.Reader) bool { return r.String() == "a" }},
-	"b":     {Name: "b", Col: "b", Pred: func(v Val) bool { return v.N != 0 }, Rule: func(r column.Reader) bool { return r.Bool() }},
+	"b=t":   {Name: "b=t", Col: "b", Pred: func(v Val) bool { return v.N != 0 }, Rule: func(r column.Reader) bool { return r.Bool() }},
 	"e=x":   {Name: "e=x", Col: "e", Pred: func(v Val) bool { return v.S == "x" }, Rule: func(r column.Reader) bool { return r.String() == "x" }},
 }
 
@@ -793,4 +793,50 @@ func CloneCommit(c commit.Commit) commit.Commit {
 	var out commit.Commit
 	out.ReadFrom(&b)
 	return out
+}
+
+// ---------------------------------------------------------------- replicas and restores
+
+// Snapshot takes a snapshot of the real collection.
+func (w *World) Snapshot() ([]byte, error) {
+	var b bytes.Buffer
+	err := w.C.Snapshot(&b)
+	return b.Bytes(), err
+}
+
+// Twin creates a second world with the same schema whose model IS this world's
+// model: observations of the twin are compared with what this world's model says.
+// Indexes are created before (early) or left to the caller (late creation = back-fill).
+func (w *World) Twin(cfg Config, withIndexes bool) *World {
+	cfg.Cols = append([]ColDef{}, w.M.Cols...)
+	cfg.Indexes = nil
+	cfg.Logger = ""
+	cfg.Daemon = false
+	t := NewWorld(cfg)
+	shimtime.NowHook = func() time.Time { return w.Now }
+	if withIndexes {
+		for _, ix := range w.M.Indexes {
+			t.C.CreateIndex(ix.Name, ix.Col, ix.Rule)
+		}
+	}
+	t.M = w.M
+	t.Bulk = w.Bulk
+	return t
+}
+
+// CreateModelIndexes creates on the twin every index the shared model lists.
+func (t *World) CreateModelIndexes() {
+	for _, ix := range t.M.Indexes {
+		t.C.CreateIndex(ix.Name, ix.Col, ix.Rule)
+	}
+}
+
+// ReplayInto replays commits [from:] of this world, in emission order, into t.
+func (w *World) ReplayInto(t *World, from int) error {
+	for _, c := range w.Commits[from:] {
+		if err := t.C.Replay(CloneCommit(c)); err != nil {
+			return err
+		}
+	}
+	return nil
 }
